@@ -18,7 +18,7 @@ use std::collections::BTreeMap;
 pub fn meta() -> Meta {
     Meta {
         level: "model_checking",
-        rule: "every history of at most L operations over the alphabet {enter local, enter subroutine, exit, bind a|b as int|qubit, lookup a|b} (and a second alphabet adding lookup-or-bind, bind-gate and bind-hardware-qubit), from the initial table and from 11 systematic non-initial states; each history is executed on the real SymbolTable in lock-step with the reference stack of maps and compared after every operation; a history is non-trivial when it contains at least one successful bind and one successful exit; states = distinct reference states, transitions = distinct (state, operation) pairs, traces = histories executed",
+        rule: "every history of at most L operations over the alphabet {enter local, enter subroutine, exit, bind a|b as int|qubit, lookup a|b} (and a second alphabet adding lookup-or-bind, bind-gate, bind-hardware-qubit and bindings of the built-in names pi and τ), from the initial table and from 16 systematic other start states (among them tables built through Default); each history is executed on the real SymbolTable in lock-step with the reference stack of maps and compared after every operation; a history is non-trivial when it contains at least one successful bind and one successful exit; states = distinct reference states, transitions = distinct (state, operation) pairs, traces = histories executed",
         assumptions: vec![
             "histories longer than the bound are covered only as short suffixes of the systematic start states (depth-50 stacks, 200 prior bindings)",
             "hook oq3_verif: SymbolTable::verif_enter_scope / verif_scope_depth are thin wrappers of the private methods",
@@ -41,6 +41,10 @@ pub enum Op {
     LookupOrNewA,
     BindGGate,
     BindHw,
+    /// bindings of names spelled like built-ins (legal shadowing in a non-global scope, refused
+    /// in the global one)
+    BindPiInt,
+    BindTauQubit,
 }
 
 impl Op {
@@ -58,6 +62,8 @@ impl Op {
             Op::LookupOrNewA => "lookup_or_new_a",
             Op::BindGGate => "bind_g_gate",
             Op::BindHw => "bind_hw",
+            Op::BindPiInt => "bind_pi_int",
+            Op::BindTauQubit => "bind_tau_qubit",
         }
     }
     pub fn from_name(s: &str) -> Option<Op> {
@@ -89,6 +95,8 @@ pub const ALPHA2: &[Op] = &[
     Op::LookupOrNewA,
     Op::BindGGate,
     Op::BindHw,
+    Op::BindPiInt,
+    Op::BindTauQubit,
 ];
 
 fn t_int() -> Type {
@@ -244,6 +252,8 @@ impl Pair {
             Op::BindBQubit => self.bind("b", &t_qubit())?,
             Op::BindGGate => self.bind("g", &Type::Gate(2, 1))?,
             Op::BindHw => self.bind("$0", &Type::HardwareQubit)?,
+            Op::BindPiInt => self.bind("pi", &t_int())?,
+            Op::BindTauQubit => self.bind("τ", &t_qubit())?,
             Op::LookupA | Op::LookupB => {
                 // a look-up on the table itself (the observation below works on a copy, so this
                 // is the only look-up that can leave a trace in the table)
